@@ -170,6 +170,7 @@ type Exec struct {
 	closureOrder   []string
 	shiftAxiom     map[string]bool
 	tagTypes       map[int]types.Type
+	fvCells        map[string]TV // captured variables of the closure under proof: cell reference and element type
 	callOrd        map[*ssa.Call]int
 	callName       map[*ssa.Call]string
 	sortCount      int
@@ -822,6 +823,11 @@ func (x *Exec) ghostVar(name string) *GhostVar {
 }
 
 func (x *Exec) lookupIdent(e *Env, name string) (TV, bool) {
+	// captured variables of a closure under contract: the cell's content in the clause's state
+	if c, ok := x.fvCells[name]; ok && e.st != nil {
+		cs := ArraySort(SInt, x.tm.SortOf(c.Ty))
+		return TV{Select(e.st.Heap(x, x.cellHeapName(c.Ty), cs), c.T), c.Ty}, true
+	}
 	// ghost locals of the function under proof
 	if g := x.ghostVar(name); g != nil && e.st != nil {
 		st := x.parseSpecType(g.Type, token.NoPos)
@@ -953,7 +959,12 @@ func VerifyFunction(ld *Loader, db *ContractDB, fn *ssa.Function, con *Contract)
 		cs := ArraySort(SInt, x.tm.SortOf(et))
 		v := Select(st.Heap(x, x.cellHeapName(et), cs), ref)
 		x.b.Assert(x.typeFact(v, et, alloc0))
-		x.params[fv.Name()] = TV{v, et}
+		// a captured variable is read in the state in which a clause is evaluated (entry value in
+		// requires and old(...), exit value in ensures): resolved dynamically by lookupIdent
+		if x.fvCells == nil {
+			x.fvCells = map[string]TV{}
+		}
+		x.fvCells[fv.Name()] = TV{ref, et}
 	}
 	res := fn.Signature.Results()
 	for i := 0; i < res.Len(); i++ {
@@ -1184,6 +1195,14 @@ func (x *Exec) resolveModifies(c *Contract, env *Env) modSet {
 
 func (x *Exec) resolveModItem(m *Expr, env *Env, ms *modSet) {
 	switch m.Kind {
+	case EIdent:
+		// a captured variable of the closure under proof: its cell
+		if c, ok := x.fvCells[m.Name]; ok {
+			hn := x.cellHeapName(c.Ty)
+			ms.objs[hn] = append(ms.objs[hn], c.T)
+			return
+		}
+		sfail("modifies %s: not a captured variable", m.Name)
 	case EField:
 		base := env.Tr(m.Args[0])
 		_, index, _ := lookupField(base.Ty, x.pkgTypes(), m.Name)
